@@ -74,6 +74,101 @@ m("lock-per-write", "C12", "_core.py", "        with self.lock:\n            whi
 m("recv-nolock", "C12", "_core.py", "        with self.readlock:\n            opcode, data = self.recv_data()", "        if True:\n            opcode, data = self.recv_data()")
 
 
+
+# ---- C08
+m("close-reply-always", "C08", "_core.py", "                if self.connected:\n                    self.send_close()", "                if True:\n                    self.send_close()")
+m("close-range", "C08", "_core.py", "        if status < 0 or status >= ABNF.LENGTH_16:\n            raise ValueError(\"code is invalid range\")\n\n        try:", "        if status < 0 or status > ABNF.LENGTH_16:\n            raise ValueError(\"code is invalid range\")\n\n        try:")
+m("close-norelease", "C08", "_core.py", "        except:\n            pass\n\n        self.shutdown()", "        except:\n            pass\n\n        self.connected = False")
+m("close-early-leak", "C08", "_core.py", "            self.shutdown()\n            return\n        if status < 0", "            return\n        if status < 0")
+m("eof-keep-sock", "C08", "_core.py", "            if self.sock:\n                self.sock.close()\n            self.sock = None\n            self.connected = False\n            raise", "            self.connected = False\n            raise")
+m("close-wait-3t", "C08", "_core.py", "while timeout is None or time.time() - start_time < timeout:", "while timeout is None or time.time() - start_time < timeout * 3:")
+m("sendclose-norange", "C08", "_core.py", "        if status < 0 or status >= ABNF.LENGTH_16:\n            raise ValueError(\"code is invalid range\")\n        self.connected = False", "        if status < 0:\n            raise ValueError(\"code is invalid range\")\n        self.connected = False")
+# ---- C09
+m("upgrade-substring", "C09", "_handshake.py", "        if v not in r:\n            return False, None", "        if not any(v in x for x in r):\n            return False, None")
+m("accept-prefix", "C09", "_handshake.py", "    if hmac.compare_digest(hashed, result):", "    if hmac.compare_digest(hashed[:20], result[:20]):")
+m("subproto-any", "C09", "_handshake.py", "        if not subproto or subproto.lower() not in [s.lower() for s in subprotocols]:", "        if not subproto:")
+m("redirect-plus1", "C09", "_core.py", "for _ in range(options.pop(\"redirect_limit\", 3)):", "for _ in range(options.pop(\"redirect_limit\", 3) + 1):")
+m("redirect-success", "C09", "_core.py", "            if self.handshake_response.status in SUPPORTED_REDIRECT_STATUSES:\n                raise WebSocketException(\"Too many redirects\")\n", "")
+m("fail-noclose", "C09", "_core.py", "        except:\n            if self.sock:\n                self.sock.close()\n                self.sock = None\n            raise\n\n    def send(", "        except:\n            if self.sock:\n                self.sock = None\n            raise\n\n    def send(")
+m("status-200-ok", "C09", "_handshake.py", "SUCCESS_STATUSES = SUPPORTED_REDIRECT_STATUSES + (HTTPStatus.SWITCHING_PROTOCOLS,)", "SUCCESS_STATUSES = SUPPORTED_REDIRECT_STATUSES + (HTTPStatus.SWITCHING_PROTOCOLS, HTTPStatus.OK)")
+m("conn-header-skip", "C09", "_handshake.py", "    \"connection\": \"upgrade\",\n}", "}")
+# ---- C10
+m("hostport-443", "C10", "_handshake.py", "    if port in [80, 443]:", "    if port == 80:")
+m("ipv6-nobracket", "C10", "_handshake.py", "    if \":\" in hostname:", "    if hostname.count(\":\") > 1:")
+m("origin-scheme", "C10", "_handshake.py", "        elif scheme == \"wss\":", "        elif scheme == \"ws\":")
+m("cookie-order", "C10", "_handshake.py", "filter(None, [server_cookie, client_cookie])", "filter(None, [client_cookie, server_cookie])")
+m("key-15", "C10", "_handshake.py", "randomness = os.urandom(16)", "randomness = os.urandom(15)")
+m("dict-none", "C10", "_handshake.py", "for k, v in header.items() if v is not None]", "for k, v in header.items() if v]")
+m("two-sends", "C10", "_handshake.py", "    send(sock, header_str)\n", "    send(sock, header_str[:10])\n    send(sock, header_str[10:])\n")
+m("version-dup", "C10", "_handshake.py", "    if not options.get(\"connection\"):\n        headers.append(\"Connection: Upgrade\")", "    if not options.get(\"connection\") or options.get(\"cookie\") == \"x\":\n        headers.append(\"Connection: Upgrade\")")
+# ---- C11
+m("default-certnone", "C11", "_http.py", "sslopt: dict = {\"cert_reqs\": ssl.CERT_REQUIRED}", "sslopt: dict = {\"cert_reqs\": ssl.CERT_NONE}")
+m("hostname-override-ignored", "C11", "_http.py", "    if sslopt.get(\"server_hostname\", None):\n        hostname = sslopt[\"server_hostname\"]", "    if False:\n        hostname = sslopt[\"server_hostname\"]")
+m("checkhostname-default-off", "C11", "_http.py", "            context.check_hostname = sslopt.get(\"check_hostname\", True)", "            context.check_hostname = sslopt.get(\"check_hostname\", False)")
+m("env-overrides-user", "C11", "_http.py", "        and os.path.isfile(cert_path)\n        and user_sslopt.get(\"ca_certs\", None) is None", "        and os.path.isfile(cert_path)")
+m("optional-downgrade", "C11", "_http.py", "            context.verify_mode = sslopt.get(\"cert_reqs\", ssl.CERT_REQUIRED)", "            context.verify_mode = min(sslopt.get(\"cert_reqs\", ssl.CERT_REQUIRED), ssl.CERT_OPTIONAL)")
+m("tunnel-then-plain", "C11", "_http.py", "            sock = _tunnel(sock, hostname, port_from_url, auth)\n\n        if is_secure:", "            sock = _tunnel(sock, hostname, port_from_url, auth)\n\n        if is_secure and not need_tunnel:")
+# ---- C13
+m("ssl-nopending", "C13", "_dispatcher.py", "        if sock.pending():", "        if False:")
+m("cb-error-swallow", "C13", "_app.py", "                if self.on_error:\n                    self.on_error(self, e)", "                pass")
+m("pong-as-ping", "C13", "_app.py", "                self._callback(self.on_pong, frame.data)", "                self._callback(self.on_ping, frame.data)")
+m("message-before-data", "C13", "_app.py", "                self._callback(self.on_data, data, op_code, True)\n                self._callback(self.on_message, data)", "                self._callback(self.on_message, data)\n                self._callback(self.on_data, data, op_code, True)")
+m("ondata-opcode", "C13", "_app.py", "self._callback(self.on_data, data, op_code, True)", "self._callback(self.on_data, data, frame.opcode, True)")
+# (select-twice removed: equivalent in virtual time — a second select on ready data returns at once)
+# ---- C14
+m("teardown-noframe", "C14", "_app.py", "                return teardown(frame)", "                return closed(frame)")
+m("haserr-noreset", "C14", "_app.py", "        self.has_errored = False\n        self.keep_running = True", "        self.keep_running = True")
+m("onclose-twice", "C14", "_app.py", "                if self.has_done_teardown:\n                    return\n", "                if self.has_done_teardown and not self.has_errored:\n                    return\n")
+m("pingthread-leak", "C14", "_app.py", "        if self.stop_ping:\n            self.stop_ping.set()", "        if self.stop_ping and not self.has_errored:\n            self.stop_ping.set()")
+m("closeargs-len", "C14", "_app.py", "if close_frame.data and len(close_frame.data) >= 2:", "if close_frame.data and len(close_frame.data) > 2:")
+m("close-in-open-crash", "C14", "_app.py", "                if not self.keep_running:\n                    # close() was called from on_open / on_reconnect\n                    teardown()\n                    return\n\n", "")
+m("sock-not-closed", "C14", "_app.py", "            if self.sock:\n                self.sock.close()\n            close_status_code", "            close_status_code")
+# ---- C15
+m("reconnect-2x", "C15", "_dispatcher.py", "            time.sleep(seconds)\n            reconnector(reconnecting=True)", "            time.sleep(seconds * 2)\n            reconnector(reconnecting=True)")
+m("no-on-reconnect", "C15", "_app.py", "                if reconnecting and self.on_reconnect:", "                if False and self.on_reconnect:")
+m("old-sock-leak", "C15", "_app.py", "            if reconnecting and self.sock:\n                self.sock.shutdown()\n", "")
+m("reconnect-after-close", "C15", "_app.py", "                return teardown(frame)", "                return closed(frame)")
+m("close-between", "C15", "_app.py", "            if reconnect:\n                _logging.info(f\"{e} - reconnect\")", "            if reconnect:\n                self._callback(self.on_close, None, None)\n                _logging.info(f\"{e} - reconnect\")")
+m("ping-not-stopped", "C15", "_app.py", "            self.has_errored = True\n            self._stop_ping_thread()", "            self.has_errored = True")
+# ---- C16
+m("ping-overwrite", "C16", "_app.py", "                if not self.last_ping_tm or self.last_pong_tm >= self.last_ping_tm:\n                    self.last_ping_tm = time.time()", "                self.last_ping_tm = time.time()")
+m("args-lt", "C16", "_app.py", "if ping_timeout and ping_interval and ping_interval <= ping_timeout:", "if ping_timeout and ping_interval and ping_interval < ping_timeout:")
+m("pong-time-lost", "C16", "_app.py", "                self.last_pong_tm = time.time()\n", "                self.last_pong_tm = time.time() if frame.data else self.last_pong_tm\n")
+m("ping-payload-drop", "C16", "_app.py", "self.sock.ping(self.ping_payload)", "self.sock.ping()")
+m("timeout-neg-ok", "C16", "_app.py", "if ping_timeout is not None and ping_timeout <= 0:", "if ping_timeout is not None and ping_timeout < 0:")
+# ---- C17
+m("cap-removed", "C17", "_abnf.py", "bytes_ = self.recv(min(16384, shortage))", "bytes_ = self.recv(shortage)")
+m("status-unchecked", "C17", "_http.py", "            try:\n                status = int(status_info[1])\n            except (IndexError, ValueError):\n                raise WebSocketException(\"Invalid status line\")", "            status = int(status_info[1])")
+m("clen-uncapped", "C17", "_handshake.py", "response_body = sock.recv(min(body_len, 16384))", "response_body = sock.recv(body_len)")
+m("location-keyerror", "C17", "_core.py", "url = self.handshake_response.headers.get(\"location\")", "url = self.handshake_response.headers[\"location\"]")
+m("header-nocolon-index", "C17", "_http.py", "            if len(kv) != 2:\n                raise WebSocketException(\"Invalid header\")\n", "")
+m("close-body-struct", "C17", "_abnf.py", "            code = 256 * int(self.data[0]) + int(self.data[1])", "            code = struct.unpack(\"!H\", self.data[0:2] if l != 3 else self.data[0:1])[0]")
+# ---- C18
+m("wss-default-80", "C18", "_url.py", "        is_secure = True\n        if not port:\n            port = 443", "        is_secure = True\n        if not port:\n            port = 80")
+m("query-dropped", "C18", "_url.py", "    if parsed.query:\n        resource += f\"?{parsed.query}\"", "    if parsed.query and parsed.path:\n        resource += f\"?{parsed.query}\"")
+m("refused-aborts", "C18", "_http.py", "                if error.errno not in eConnRefused:\n                    raise error", "                if error.errno not in eConnRefused or error.errno == errno.ENETUNREACH:\n                    raise error")
+m("opts-first-only", "C18", "_http.py", "        for opts in sockopt:\n            sock.setsockopt(*opts)", "        for opts in (sockopt if addrinfo is addrinfo_list[0] else []):\n            sock.setsockopt(*opts)")
+m("failed-not-closed", "C18", "_http.py", "            except socket.error as error:\n                sock.close()\n", "            except socket.error as error:\n")
+m("timeout-first-only", "C18", "_http.py", "        sock.settimeout(timeout)\n        for opts in DEFAULT_SOCKET_OPTION:", "        sock.settimeout(timeout if addrinfo is addrinfo_list[0] else None)\n        for opts in DEFAULT_SOCKET_OPTION:")
+m("port-65535", "C18", "_url.py", "    if parsed.port:\n        port = parsed.port", "    if parsed.port and parsed.port != 65535:\n        port = parsed.port")
+m("scheme-case", "C18", "_url.py", "    if scheme == \"ws\":", "    if scheme.lower() == \"ws\":")
+# ---- C19
+m("noproxy-suffix", "C19", "_url.py", "        if endDomain and (\n            hostname == endDomain or hostname.endswith(\".\" + endDomain)\n        ):", "        if endDomain and hostname.endswith(endDomain):")
+m("cidr-31", "C19", "_url.py", "0 <= int(netmask) <= 32", "0 <= int(netmask) < 32")
+m("cidr-mask-shift", "C19", "_url.py", "netmask = (0xFFFFFFFF << (32 - int(netmask))) & 0xFFFFFFFF", "netmask = (0xFFFFFFFF << (31 - int(netmask))) & 0xFFFFFFFF")
+m("https-for-ws", "C19", "_url.py", "env_key = \"https_proxy\" if is_secure else \"http_proxy\"", "env_key = \"http_proxy\" if is_secure else \"https_proxy\"")
+m("tunnel-2xx", "C19", "_http.py", "    if status != 200:\n        raise WebSocketProxyException", "    if status >= 300:\n        raise WebSocketProxyException")
+m("auth-nopass", "C19", "_http.py", "        if auth[1]:\n            auth_str += f\":{auth[1]}\"", "        if auth[1] and \":\" not in auth[1]:\n            auth_str += f\":{auth[1]}\"")
+m("noproxy-env-ignored-when-option", "C19", "_url.py", "    if not no_proxy:\n        if v := os.environ.get(\"no_proxy\"", "    if True:\n        if v := os.environ.get(\"no_proxy\"")
+m("connect-target-proxy", "C19", "_http.py", "    connect_header = f\"CONNECT {host}:{port} HTTP/1.1\\r\\n\"", "    connect_header = f\"CONNECT {host} HTTP/1.1\\r\\n\"")
+# ---- C20
+m("jar-nolower", "C20", "_cookiejar.py", "                    # the jar is keyed by the lower-cased domain\n                    domain = domain.lower()\n", "")
+m("jar-suffix-nolabel", "C20", "_cookiejar.py", "            if host.endswith(domain) or host == domain[1:]:", "            if host.endswith(domain[1:]):")
+m("jar-nodomain-kept", "C20", "_cookiejar.py", "                if domain := v.get(\"domain\"):\n                    if not domain.startswith(\".\"):\n                        domain = f\".{domain}\"\n                    # the jar", "                if domain := (v.get(\"domain\") or \"setter.example\"):\n                    if not domain.startswith(\".\"):\n                        domain = f\".{domain}\"\n                    # the jar")
+m("jar-host-case", "C20", "_cookiejar.py", "            host = host.lower()\n", "")
+m("cookie-unsorted", "C20", "_cookiejar.py", "                sorted(\n                    [", "                list(\n                    [")
+
+
 def _utf8_table_mutant(src):
     # allow ED A0..BF (surrogates): change the class of byte 0xED from 4 to 3 in the table's first part
     lines = src.split("\n")
